@@ -248,6 +248,9 @@ func (x *Exec) oblige(st *State, kind, site, descr string, props []string, goal 
 		}
 		ob := &Obligation{Name: name, Func: x.key, Kind: kind, Props: props, Pos: site, Descr: descr,
 			Hyps: hyps, Goal: g, Tags: x.p.tags}
+		if x.fc != nil {
+			ob.Uses = x.fc.Uses
+		}
 		x.obs = append(x.obs, ob)
 	}
 }
@@ -1156,7 +1159,9 @@ func (x *Exec) typeAssert(st *State, fr *Frame, i *ssa.TypeAssert) Value {
 		if iv.Dyn != nil {
 			ok = Bool(types.Implements(iv.Dyn, at.Underlying().(*types.Interface)))
 		} else {
-			ok = And(Not(Eq(iv.Tag, Int(0))), Sym(fresh("implements"), SBool))
+			// whether a dynamic type implements an interface is a function of the type (tag) only
+			declareFun("ifaceimpl", "(declare-fun ifaceimpl (Int Int) Bool)")
+			ok = And(Not(Eq(iv.Tag, Int(0))), App("ifaceimpl", SBool, Int(x.p.strID("iface:"+types.TypeString(at, nil))), iv.Tag))
 		}
 		res = iv
 	} else {
